@@ -235,6 +235,12 @@ func (e *Engine) evalC(st *State, env *cenv, x *CExpr) (Val, error) {
 			}
 			hi = v.T
 		}
+		if b.K == KStr {
+			if hi == "" {
+				hi = "(slen " + b.T + ")"
+			}
+			return Val{K: KStr, T: "(substr_ " + b.T + " " + lo + " " + hi + ")", Ty: b.Ty}, nil
+		}
 		if b.K != KSlice {
 			return Val{}, fmt.Errorf("slice expression on kind %v", b.K)
 		}
